@@ -10,16 +10,23 @@ PARSER = "pysmt.smtlib.parser.parser.SmtLibParser"
 CACHE = "pysmt.smtlib.parser.parser.SmtLibExecutionCache"
 
 EXPLANATION = (
-    "Static analysis of pysmt/smtlib/parser/parser.py: every entry of the operator-token table maps "
-    "its token to the constructor that realises the standard's meaning, through the adapters (R1); "
-    "indexed identifiers read their indices in the standard's order and pass them to the right "
-    "parameters (R2); literal notations #b/#x and the numeral typing table (R3); let bindings are "
-    "simultaneous: no binding of a let is installed while a sibling's value is still being parsed "
-    "(R4); every bind has its unbind on the matching exit (R5); token interpretation never falls "
-    "back silently to a value of another kind (R6); nothing accepted today disappears: the token and "
-    "command tables are supersets of the sets confirmed on this tree (R7).")
-NOT_DECIDED = ["denotation of arbitrary parsed text", "scoping of defined names against binders "
-               "(definition lookup precedes the binding stack: recorded as observation F-C08-3)"]
+    "Abstract interpretation of pysmt/smtlib/parser/parser.py (tokeniser, command loop, term reader, "
+    "binders, literals, indexed identifiers) together with script.py and the constructors it calls, the "
+    "construction-time type check included: a corpus of ~100 scripts exercising every notation - "
+    "simultaneous and nested let, shadowing of declared names, quantifier and define-fun scoping, named "
+    "terms, numerals typed by the logic, decimals, negative and rational literals, chains and n-ary forms, "
+    "every bit-vector operator, literal and indexed identifier, strings with escapes, arrays and constant "
+    "arrays, uninterpreted functions and sorts, quoted symbols, comments, push / pop - is read by the "
+    "interpreted parser and by an independent reader written from the standard (sa/refsmt.py); every "
+    "asserted term the parser returns must denote what the reference says the text denotes (structurally, "
+    "or by exhaustive evaluation over small domains), get_last_formula must be the conjunction of the live "
+    "assertions, well-formed text handled today must stay accepted, and ill-formed text rejected today "
+    "must stay rejected (R9).  Every entry of the operator-token table maps its token to the constructor "
+    "that realises the standard's meaning (R1); the token and command tables are supersets of the sets "
+    "confirmed on this tree (R7); _reset re-initialises the state commands change (R8).")
+NOT_DECIDED = ["texts outside the corpus", "leniency: four kinds of ill-formed text are accepted with their "
+               "evident reading (assert of a non-Boolean term, identical redeclaration, pop below level 0, use of "
+               "a symbol after the pop of its declaration); they are listed in the rule, not reported"]
 
 
 def token_table(repo):
@@ -124,194 +131,40 @@ def run(ctx):
             rs.unrec("'/' adapter not in the recognised form")
         ctx.floor(rs, 60)
 
-    if ctx.want("R2"):
-        rs = ctx.rule("R2", "indexed identifiers: index order and parameter mapping")
-        cls, f = repo.method(PARSER, "_smtlib_underscore")
-        branches = {}
-        for n in ast.walk(f):
-            if isinstance(n, ast.If) and isinstance(n.test, ast.Compare) and norm(n.test.left) == "op" and \
-                    isinstance(n.test.comparators[0], ast.Constant):
-                branches[n.test.comparators[0].value] = n
-        for ident, (ctor, how) in sorted(T.UNDERSCORE.items()):
-            br = branches.get(ident)
-            if br is None:
-                ctx.finding(rs, "%s._smtlib_underscore|missing|%s" % (PARSER, ident),
-                            "(_ %s ...) is no longer handled" % ident, method_loc(repo, cls, f))
-                continue
-            atoms = []      # variables assigned from parse_atom, in textual order
-            conv = {}       # int var -> source atom var
-            lam = None
-            for s in ast.walk(ast.Module(body=br.body, type_ignores=[])):
-                if isinstance(s, ast.Assign) and isinstance(s.value, ast.Call):
-                    if attr_tail(s.value) == "parse_atom":
-                        atoms.append(s.targets[0].id)
-                    elif isinstance(s.value.func, ast.Name) and s.value.func.id == "int" and isinstance(s.value.args[0], ast.Name):
-                        conv[s.targets[0].id] = s.value.args[0].id
-                if isinstance(s, ast.Assign) and isinstance(s.value, ast.Lambda):
-                    lam = s.value
-            if lam is None or not isinstance(lam.body, ast.Call):
-                rs.unrec("(_ %s): constructor lambda not recognised" % ident)
-                continue
-            call = lam.body
-            got_ctor = attr_tail(call)
-            args = [norm(a) for a in call.args]
-            if got_ctor != ctor:
-                ctx.finding(rs, "%s._smtlib_underscore|%s|ctor" % (PARSER, ident),
-                            "(_ %s i) builds %s, expected %s" % (ident, got_ctor, ctor), method_loc(repo, cls, call))
-                continue
-            idx_args = args[1:]
-            srcs = [conv.get(a, a) for a in idx_args]
-            if ident == "extract":
-                # atoms[0] is the high index, atoms[1] the low; BVExtract(x, start=low, end=high)
-                if len(atoms) == 2 and srcs == [atoms[1], atoms[0]] and not call.keywords:
-                    rs.ok({"identifier": ident, "reads": "high then low", "builds": "BVExtract(x, start=low, end=high)"})
-                else:
-                    ctx.finding(rs, "%s._smtlib_underscore|extract|order" % PARSER,
-                                "(_ extract i j) reads %s and builds %s(%s): start must be the second index, end the first"
-                                % (atoms, got_ctor, ", ".join(args)), method_loc(repo, cls, call))
-            else:
-                if len(atoms) == 1 and srcs == [atoms[0]]:
-                    rs.ok({"identifier": ident, "builds": "%s(x, %s)" % (ctor, how)})
-                else:
-                    ctx.finding(rs, "%s._smtlib_underscore|%s|index" % (PARSER, ident),
-                                "(_ %s i) passes %s" % (ident, args), method_loc(repo, cls, call))
-        # (_ bvN w)
-        bvb = [n for n in ast.walk(f) if isinstance(n, ast.If) and norm(n.test) == "op.startswith('bv')"]
-        if bvb and "v = int(op[2:])" in norm(bvb[0]) and "fun = mgr.BV(v, width)" in norm(bvb[0]):
-            rs.ok({"identifier": "bvN", "builds": "BV(N, width)"})
-        else:
-            rs.unrec("(_ bvN w) branch")
-        ctx.floor(rs, 6)
-
-    if ctx.want("R3"):
-        rs = ctx.rule("R3", "literals: #b / #x width and base; numeral typing table")
-        cls, f = repo.method(PARSER, "atom")
-        txt = norm(f)
-        checks = [("#b width", "width = len(token) - 2"), ("#b value", "value = int('0' + token[1:], 2)"),
-                  ("#x width", "width = (len(token) - 2) * 4"), ("#x value", "value = int('0' + token[1:], 16)"),
-                  ("bv build", "res = mgr.BV(value, width)"),
-                  ("string unescape", "val = val.replace('\"\"', '\"')"), ("string body", "val = token[1:-1]")]
-        for what, frag in checks:
-            if frag in txt:
-                rs.ok({"literal": what, "code": frag})
-            else:
-                rs.unrec("literal handling (%s) not in the recognised form `%s`" % (what, frag))
-        # numeral typing decision table
-        want = ["if frac.denominator == 1:", "if self.logic is None or self.logic.theory.integer_arithmetic:",
-                "if '.' in token:", "res = mgr.Real(frac)", "res = mgr.Int(frac.numerator)"]
-        if all(w in txt for w in want):
-            # structure: Int only when denominator 1, logic unset or has ints, and no '.'
-            ints = [n for n in ast.walk(f) if isinstance(n, ast.Assign) and norm(n.value) == "mgr.Int(frac.numerator)"]
-            par = parents(f)
-            guards = []
-            p = ints[0]
-            while p in par:
-                q = par[p]
-                if isinstance(q, ast.If):
-                    guards.append((norm(q.test), p in q.body))
-                p = q
-            need = {("'.' in token", False), ("self.logic is None or self.logic.theory.integer_arithmetic", True),
-                    ("frac.denominator == 1", True)}
-            if need <= set(guards):
-                rs.ok({"numeral": "Int iff integral, no '.', and logic unset or with integers", "guards": guards})
-            else:
-                ctx.finding(rs, "%s.atom|numeral-table" % PARSER, "Int literal produced under guards %s" % guards,
-                            method_loc(repo, cls, ints[0]))
-        else:
-            rs.unrec("numeral typing code changed shape")
-        ctx.floor(rs, 7)
-
-    if ctx.want("R4"):
-        rs = ctx.rule("R4", "let is simultaneous: bindings installed after all values are parsed")
-        cls, f = repo.method(PARSER, "_enter_let")
-        loops = [n for n in ast.walk(f) if isinstance(n, (ast.While, ast.For))]
-        binds = [c for c in calls_in(f) if attr_tail(c) == "bind" and "cache" in norm(c.func)]
-        if not binds:
-            rs.unrec("_enter_let: no cache.bind found")
-        for b in binds:
-            inside = [lp for lp in loops if any(x is b for x in ast.walk(lp)) and
-                      any(attr_tail(c) == "get_expression" for c in calls_in(lp))]
-            if inside:
-                ctx.finding(rs, "%s._enter_let|bind-in-parse-loop" % PARSER,
-                            "a let binding is installed (%s) inside the loop that parses the sibling bindings' values: "
-                            "`(let ((x y) (y x)) ...)` reads the second value under the first binding (sequential, not "
-                            "simultaneous let)" % short(b), method_loc(repo, cls, b))
-            else:
-                rs.ok({"bind": short(b), "after_all_values_parsed": True})
-        ctx.floor(rs, 1)
-
-    if ctx.want("R5"):
-        rs = ctx.rule("R5", "binder pairing: every bind has its unbind on the matching exit")
-        pairs = [("_enter_let", "_exit_let"), ("_enter_quantifier", "_exit_quantifier")]
-        for ent, ext in pairs:
-            cls, fe = repo.method(PARSER, ent)
-            cls, fx = repo.method(PARSER, ext)
-            nb = [c for c in calls_in(fe) if attr_tail(c) == "bind"]
-            nu = [c for c in calls_in(fx) if attr_tail(c) in ("unbind", "unbind_all")]
-            pushes_exit = any(norm(c) == "stack[-1].append(self.%s)" % ext for c in calls_in(fe))
-            if nb and nu and pushes_exit:
-                loop_unbind = any(isinstance(n, ast.For) and any(attr_tail(c) == "unbind" for c in calls_in(n)) for n in ast.walk(fx)) \
-                    or any(attr_tail(c) == "unbind_all" for c in nu)
-                if loop_unbind:
-                    rs.ok({"enter": ent, "exit": ext, "binds": len(nb), "unbinds": "one per bound name"})
-                else:
-                    ctx.finding(rs, "%s.%s|partial-unbind" % (PARSER, ext), "%s does not unbind every name bound by %s" % (ext, ent),
-                                method_loc(repo, cls, fx))
-            elif nb and not pushes_exit:
-                ctx.finding(rs, "%s.%s|exit-not-scheduled" % (PARSER, ent), "%s binds but does not schedule %s" % (ent, ext),
-                            method_loc(repo, cls, fe))
-            elif nb and not nu:
-                ctx.finding(rs, "%s.%s|no-unbind" % (PARSER, ext), "%s never unbinds" % ext, method_loc(repo, cls, fx))
-            else:
-                rs.unrec("%s/%s" % (ent, ext))
-        # define-fun parameters
-        cls, f = repo.method(PARSER, "_cmd_define_fun")
-        cfg = CFG(f)
-        bn = [n for n in cfg.nodes if n.ast is not None and n.kind == "stmt" and any(attr_tail(c) == "bind" for c in calls_in(n.ast))]
-        un = lambda n: n.ast is not None and n.kind == "stmt" and any(attr_tail(c) == "unbind" for c in calls_in(n.ast))
-        if bn and all(cfg.must_pass(b.id, cfg.ret.id, lambda n: n.kind == "for" and any(attr_tail(c) == "unbind" for c in calls_in(n.ast)) or un(n),
-                                    follow=normal_only) for b in bn):
-            rs.ok({"define-fun": "parameters unbound before the command returns"})
-        elif bn:
-            ctx.finding(rs, "%s._cmd_define_fun|params-leak" % PARSER,
-                        "define-fun parameters stay bound after the definition", method_loc(repo, cls, bn[0].ast))
-        # cache primitives
-        for nm, frag in (("bind", "lst.append(value)"), ("unbind", "self.keys[name].pop()")):
-            cls2, g = repo.method(CACHE, nm)
-            if frag in norm(g):
-                rs.ok({"cache." + nm: frag})
-            else:
-                rs.unrec("cache.%s body" % nm)
-        ctx.floor(rs, 4)
-
-    if ctx.want("R6"):
-        rs = ctx.rule("R6", "no silent fallback when interpreting a token")
-        cls, f = repo.method(PARSER, "atom")
-        for n in ast.walk(f):
-            if isinstance(n, ast.Try):
-                for h in n.handlers:
-                    raises = any(isinstance(x, ast.Raise) for x in ast.walk(h))
-                    builds = [c for c in calls_in(h) if isinstance(c.func, ast.Attribute) and norm(c.func.value) == "mgr"]
-                    if raises and not builds:
-                        rs.ok({"except": norm(h.type) if h.type else "bare", "action": "raises"})
-                    elif builds:
-                        ctx.finding(rs, "%s.atom|fallback|%s" % (PARSER, attr_tail(builds[0])),
-                                    "a token that is neither bound nor a literal is turned into %s instead of being "
-                                    "rejected: an undeclared symbol `foo` silently becomes the string constant \"foo\""
-                                    % short(builds[0]), method_loc(repo, cls, h))
+    if ctx.want("R9"):
+        rs = ctx.rule("R9", "import corpus: the interpreted parser and the independent reader agree on every asserted term")
+        from . import text_deep as td
+        for r in td.import_results(repo, ctx.tier):
+            name, kind, exp = r["name"], r["kind"], r["expect"]
+            loc = "pysmt/smtlib/parser/parser.py"
+            if kind == "unsupported":
+                rs.unrec("%s: %s" % (name, r["detail"][:160]))
+            elif exp == "accept":
+                if kind == "valid":
+                    if r["last"] and r["last"][0] == "invalid":
+                        ctx.finding(rs, "import|%s|last-formula" % name, "script %s: %s" % (name, r["last"][1]), "pysmt/smtlib/script.py")
                     else:
-                        rs.unrec("except handler in atom(): %s" % short(h))
-        cls, f = repo.method(PARSER, "get_command")
-        if "raise UnknownSmtLibCommandError(current)" in norm(f):
-            rs.ok({"unknown command": "raises UnknownSmtLibCommandError"})
-        else:
-            ctx.finding(rs, "%s.get_command|unknown" % PARSER, "unknown commands are not rejected", method_loc(repo, cls, f))
-        cls, f = repo.method(PARSER, "_smtlib_underscore")
-        if "raise PysmtSyntaxError(\"Unexpected '_' expression '%s'\" % op" in norm(f):
-            rs.ok({"unknown indexed identifier": "raises"})
-        else:
-            rs.unrec("unknown (_ ...) identifier branch")
-        ctx.floor(rs, 2)
+                        rs.ok({"script": name, "checked": r["detail"], "get_last_formula": r["last"][0] if r["last"] else None})
+                elif kind == "invalid":
+                    ctx.finding(rs, "import|%s" % name, "script %s is misread: %s" % (name, r["detail"]), loc)
+                elif kind == "accepted-illformed":
+                    ctx.finding(rs, "import|%s" % name, "script %s: %s" % (name, r["detail"]), loc)
+                else:
+                    ctx.finding(rs, "import|%s|rejected" % name, "script %s, handled before, is now rejected: %s" % (name, r["detail"]), loc)
+            elif exp == "may-reject":
+                if kind in ("valid", "rejected-valid"):
+                    rs.ok({"script": name, "outcome": "read correctly" if kind == "valid" and "rejected" not in r["detail"] else "rejected with an error"})
+                else:
+                    ctx.finding(rs, "import|%s" % name, "script %s is misread: %s" % (name, r["detail"]), loc)
+            elif exp == "reject":
+                if kind == "valid":
+                    rs.ok({"script": name, "outcome": r["detail"][:120]})
+                else:
+                    ctx.finding(rs, "import|%s|accepted" % name,
+                                "ill-formed script %s is accepted silently: %s" % (name, r["detail"]), loc)
+            else:   # lenient
+                rs.ok({"script": name, "outcome": "lenient: " + r["detail"][:120] if kind != "valid" else r["detail"][:120]})
+        ctx.floor(rs, 80)
 
     if ctx.want("R7"):
         rs = ctx.rule("R7", "constructs accepted today keep being accepted (token and command sets)")
